@@ -8,6 +8,30 @@ TB = ('rustc name/type resolution and MIR construction; pinned dependency crates
       '(typst_syntax::parse deterministic and total, error-free trees obey the grammar table; pretty renders text verbatim and indents by the sum of nest amounts)')
 
 CLAIMS = {
+    'C11': dict(
+        technique='provenance of every Ok payload + shape check of the post-processing loop over MIR (must-pass-through, single-exit loop)',
+        text='Complete structural argument under the contracts of str::lines/str::trim_end: every accepted input is returned through a post-processor that '
+             'appends trim_end(line)+LF per line and returns "\\n" for empty input; tests can only sample inputs.',
+        design_ref='DESIGN.md §2 C11'),
+    'C12': dict(
+        technique='provenance of every nest amount, who-may-call for column combinators, forward taint of Config.tab_spaces, writer inventory',
+        text='Complete under the renderer contract: every indentation step is the configured unit and the unit never reaches a comparison, switch or arithmetic, '
+             'so the number of steps cannot depend on it. Quantifies over all code paths instead of sampled inputs/units.',
+        design_ref='DESIGN.md §2 C12'),
+    'C14': dict(
+        technique='who-may-write call-path guards (dominating switch edges on check/inplace), truth tables by CFG path enumeration, error-discipline rule',
+        text='The read-only guarantee and the exit-status algebra are finite: every path to a write or a text print is dominated by check==false, and the status '
+             'mapping is enumerated exhaustively as truth tables from the MIR. File trees and invocation histories need not be sampled.',
+        design_ref='DESIGN.md §2 C14'),
+    'C15': dict(
+        technique='provenance of written content/path, guarded-by rules for change/eligibility, single-exit batch loops, error-counter discipline',
+        text='Structural argument: what is written is the library result for the option mapping, only on the changed edge, only for eligible entries; every I/O Result '
+             'in a batch loop reaches a counter guarding the Err return. Found and repaired F5/F6 (see known_findings.json).',
+        design_ref='DESIGN.md §2 C15'),
+    'C16': dict(
+        technique='provenance of the option mapping, who-may-call funnel, format_args! template constant inspection, pre-expansion AST of the wasm export',
+        text='Option plumbing, funnelling into one render entry and the byte-exact print idiom are decided on every path; clap parsing is trusted.',
+        design_ref='DESIGN.md §2 C16'),
     'C17': dict(
         technique='effect analysis over the resolved MIR call graph (who-may-call, no shared state, no hash-order iteration)',
         text='Structural proof obligations over the MIR of /repo: the effect closure of typstyle-core\'s public API is free of ambient authority, '
